@@ -99,7 +99,7 @@ ExportRec ==
    nsakeep |-> UNION {x.items : x \in {y \in Keeps(plan) : y.why = "nsa"}},
    leaves |-> {LeafRec(L) : L \in Leaves(plan)},
    forced |-> Forced,
-   out |-> [i \in 1..N |-> out[i][1]]]
+   out |-> [i \in 1..N |-> <<IF out[i][1].d = "keep" THEN 1 ELSE 0, out[i][1].fn, out[i][1].fd, out[i][1].q>>]]
 ExportDone == Done => PrintT(<<"BEH", ToJson(ExportRec)>>)
 
 -------------------------------------------------------------------------------
